@@ -82,6 +82,8 @@ def main():
                 "detected_by": {c: {"exit": rc, "rules": rules} for c, rc, rules in det}}
         json.dump(meta, open(f"{V}/seeded/{s}/meta.json", "w"), indent=1)
         print(s, "own:", own[1:], "| all:", [(c, rc) for c, rc, _ in det])
+    if len(sys.argv) > 1:
+        return 0
     with open(f"{V}/seeded/RESULTS.md", "w") as f:
         f.write("# Seeded defects vs. checks (quick tier)\n\n| seed | property | own check exit | rules firing in own check | other checks firing |\n|---|---|---|---|---|\n")
         for s, prop, own, det in rows:
